@@ -255,7 +255,17 @@ def finish(prop, spec, tier, seed, parts, t0):
         seen.add(l.split(" (signature")[0])
         out.append(l)
     wall = time.time() - t0
-    write_evidence(prop, tier, seed, spec["level"], cov, spec.get("assumptions", []), wall, nviol)
+    if not cov.get("samples"):
+        # every worker stopped at its very first case (a change that breaks the coder outright): the reported lines are the sample
+        cov["samples"] = [l for l in out if l.startswith("#") or l.startswith("VIOLATION")][:4] or ["no case ran to completion"]
+    try:
+        write_evidence(prop, tier, seed, spec["level"], cov, spec.get("assumptions", []), wall, nviol)
+    except RuntimeError as e:
+        # never lose the verdict lines over the evidence file: print them, then report the broken evidence
+        for l in out:
+            print(l)
+        print(f"CHECK-BROKEN {prop}: {e}")
+        return 1 if nviol else 2
     for l in out:
         print(l)
     if nviol:
